@@ -157,8 +157,8 @@ type World struct {
 const pruneEpoch = "day"
 const dayMs = int64(24 * 3600 * 1000)
 
-func ms(t time.Time) int64      { return t.UnixMilli() }
-func tms(m int64) time.Time     { return time.UnixMilli(m).UTC() }
+func ms(t time.Time) int64       { return t.UnixMilli() }
+func tms(m int64) time.Time      { return time.UnixMilli(m).UTC() }
 func sdkInt(n int64) sdkmath.Int { return sdkmath.NewInt(n) }
 
 func order(a, b string) (string, string) {
